@@ -1240,6 +1240,7 @@ func main() {
 	hist := flag.Int("hist", 40, "history length for the pool family")
 	G := flag.Int("g", 8, "goroutines for conc/own")
 	procs := flag.Int("procs", 4, "GOMAXPROCS for conc/own")
+	scripts := flag.String("scripts", "", "builder scripts for the def family")
 	flag.Parse()
 	rng = rand.New(rand.NewSource(*seed))
 	var paths []string
@@ -1267,6 +1268,8 @@ func main() {
 		case "alias":
 			runtime.GOMAXPROCS(1)
 			famAlias(*iters)
+		case "def":
+			famDef(*scripts)
 		case "":
 		default:
 			fmt.Fprintln(os.Stderr, "unknown family", f)
